@@ -310,6 +310,11 @@ pub fn cases(tier: Tier) -> (Vec<Case>, usize) {
     let named_strings: Vec<(String, Term)> = ["plain", "a\"), admin(\"b", "\"; allow if true; //", "{p}", "$x", "\\", "line\nbreak", "", "trusting authority", "é\u{0}"].iter().map(|s| (format!("string:{}", s.escape_debug()), b::string(s))).collect();
     let hostile: Vec<(String, Term)> = c14::hostile_strings(tier.pick(1, 2)).into_iter().map(|s| (format!("string:{}", s.escape_debug()), b::string(&s))).collect();
     for t in c20::templates() {
+        // one macro argument has one Rust type: a name used both as a term and as a scope parameter cannot be
+        // bound through a macro (C20 covers those templates on the run-time path)
+        if t.term_params.iter().any(|n| t.scope_params.contains(n)) {
+            continue;
+        }
         let base_kind = match t.kind {
             "fact" => Kind::Fact,
             "rule" => Kind::Rule,
